@@ -24,6 +24,14 @@ Theorem C14_accessory_ids_unique_nonzero : forall l,
 Proof. exact container_ids. Qed.
 Print Assumptions C14_accessory_ids_unique_nonzero.
 
+(** ... also for EVERY history of additions and removals, of members and of accessories that are
+    not members (e.g. one that AddAccessory refused): an id in use is never given out again. *)
+Theorem C14_accessory_ids_unique_nonzero_history : forall ops,
+  let m := fold_left capply ops empty_container in
+  NoDup (map fst (c_accs m)) /\ Forall (fun a => fst a <> 0) (c_accs m).
+Proof. exact container_ids_history. Qed.
+Print Assumptions C14_accessory_ids_unique_nonzero_history.
+
 (** The served JSON always carries the mandatory members: the struct tags found in the Go source on
     this run emit aid / iid / type / services / characteristics / perms / format unconditionally. *)
 Theorem C14_json_mandatory_members :
